@@ -16,7 +16,11 @@ VARIABLES tid, verdict
 vars == <<tid, verdict>>
 Clauses(e) ==
   IF e.k = "runs" THEN
-    << <<"C18:IndependentOfWhatWasBuiltOrRenderedEarlierInTheProcess", SameSeedFunctional(e.runs)>>,
+    << <<"C18:IndependentOfWhatWasBuiltOrRenderedEarlierInTheProcess",
+            SameSeedFunctional(e.runs)
+            \* (the items that keep objects for the lifetime of the process compare every rendering of them with a freshly
+            \*  built twin themselves and report a difference with this marker instead of a digest)
+            /\ \A a \in 1..Len(e.runs) : \A i \in 1..Len(e.runs[a].obs) : e.runs[a].obs[i] # "KEPT-DIFFERS-FROM-FRESH">>,
        <<"C18:IdenticalAcrossInterpreterProcessesAndHashSeeds", Functional(e.runs)>> >>
   ELSE
     << <<"C18:HeadContentNameIsAFunctionOfRenderedContentOnly", (e.nameA = e.nameB) = e.sameContent>>,
